@@ -13,6 +13,7 @@ import (
 	"context"
 	"encoding/json"
 	"fmt"
+	"net/url"
 	"os"
 	"path/filepath"
 	"sort"
@@ -116,9 +117,48 @@ func newWorld(c Case) (*world, string, error) {
 	return w, "", nil
 }
 
+// alternatives lists what a "helpful" normalisation could turn name into (prefix stripping, trimming,
+// cleaning, case folding, unescaping): sentinels and decoys are planted there too, so that a name that
+// is validated in one spelling and used in another is observed.
+func alternatives(name string) []string {
+	seen := map[string]bool{name: true}
+	var out []string
+	add := func(a string) {
+		if !seen[a] && !strings.ContainsRune(a, 0) && len(a) < 200 {
+			seen[a] = true
+			out = append(out, a)
+		}
+	}
+	add(strings.TrimPrefix(name, "notation-"))
+	add(strings.TrimSpace(name))
+	add(filepath.Clean(name))
+	add(strings.ToLower(name))
+	add(strings.TrimSuffix(name, "/"))
+	if u, err := url.PathUnescape(name); err == nil {
+		add(u)
+	}
+	add(strings.ReplaceAll(name, "\\", "/"))
+	return out
+}
+
 // plant puts a sentinel executable where an unvalidated lookup would resolve and a decoy
 // directory where an unvalidated uninstall would act. Errors (name too long, NUL) are ignored.
 func (w *world) plant(name string) {
+	w.plantOne(name) // first: where the name itself resolves; alternatives never clobber it
+	for _, alt := range alternatives(name) {
+		ok := true
+		for _, p := range []string{filepath.Join(w.root, alt), filepath.Join(w.root, alt, "notation-"+alt)} {
+			if !sandbox.Within(w.fence, p) || filepath.Clean(p) == w.fence {
+				ok = false
+			}
+		}
+		if ok && strings.Count(alt, "..") <= 5 {
+			w.plantOne(alt)
+		}
+	}
+}
+
+func (w *world) plantOne(name string) {
 	exe := filepath.Join(w.root, name, "notation-"+name)
 	if os.MkdirAll(filepath.Dir(exe), 0o755) == nil {
 		if fi, err := os.Lstat(exe); err != nil || !fi.IsDir() {
@@ -333,7 +373,7 @@ func minInt(a, b int) int {
 }
 
 func drawName(rt *rapid.T) (string, string) {
-	kind := rp.Pick(rt, "nameKind", "traversal", "traversal", "traversal", "traversal-into-root", "dot", "dotdot", "empty", "whitespace", "slash", "absolute", "backslash", "nul", "long", "plain", "plain", "dotty-single", "trailing-slash")
+	kind := rp.Pick(rt, "nameKind", "traversal", "traversal", "traversal", "traversal-into-root", "dot", "dotdot", "empty", "whitespace", "slash", "absolute", "backslash", "nul", "long", "plain", "plain", "dotty-single", "trailing-slash", "prefixed", "prefixed", "encoded")
 	tail := rp.Pick(rt, "tail", "x", "evil", "etc/passwd", "installed", "a/b/c", "precious.txt")
 	switch kind {
 	case "traversal":
@@ -362,6 +402,10 @@ func drawName(rt *rapid.T) (string, string) {
 		return rp.Pick(rt, "dotty", "...", "..a", "a..", ".hidden", "a.b"), kind
 	case "trailing-slash":
 		return rp.Pick(rt, "ts", "installed/", "x/", "../x/"), kind
+	case "prefixed": // the executable's file name instead of the plugin name
+		return "notation-" + rp.Pick(rt, "prefixed", "..", ".", "", "../x", "../../evil", "installed", "foo", " .."), kind
+	case "encoded":
+		return rp.Pick(rt, "encoded", "%2e%2e", "..%2fx", "%2e%2e%2f%2e%2e%2fevil", "%2Fetc", "installed%2f..%2f..", ".%2e"), kind
 	}
 	return rp.Pick(rt, "plain", "foo", "my-plugin", "plug_1", "X", "installed"), "plain"
 }
